@@ -366,6 +366,69 @@ def g_lle(npres_choices=(2, 3), tops=(None, 'Octane', 'Water')):
     return run
 
 
+def g_lle_second_call():
+    """the SAME LLE object called again at the same temperature after the composition was edited: within the
+    composition tolerance the remembered partition coefficients are reused (phase fraction from the stubbed
+    Rachford-Rice solve, 0 <= phi <= 1), outside it the solver stub runs; either way totals and signs hold.
+    First feed and first split concrete (the remembered K is then concrete and positive)."""
+    FEEDS = {2: [1.0, 2.0], 3: [1.0, 2.0, 0.5]}
+
+    def run(E):
+        lle = C.mod('thermosteam.equilibrium.lle')
+        th = _fx['th']
+        N = _fx['N']
+        ms = tmo.MultiStream(None, thermo=th, phases='lL')
+        order = ms.imol._phases
+        npres = E.pick([2, 3], 'n-present')
+        state = {'call': 0}
+
+        class SLLE(lle.LLE):
+            __slots__ = ()
+
+            def solve_lle_liquid_mol(self, mol, T, lle_chemicals, *a, **k):
+                E.stub_called('solve_lle_liquid_mol')
+                if state['call'] == 0:
+                    return C.array(E, [m * f for m, f in zip(mol, (0.25, 0.5, 0.75))])
+                out = []
+                for i, m in enumerate(mol):
+                    x = E.real(f'lsplit{i}', lo=0, nice=(0.01, 0.3))
+                    E.assume(x <= m)
+                    out.append(x)
+                return C.array(E, out)
+
+        def pf(z, K, phi=None, *a, **k):
+            E.stub_called('phase_fraction')
+            return E.real('phi', lo=0, hi=1, nice=(0.9, 0.99))
+        C.setg(lle, 'phase_fraction', pf)
+        L = SLLE(ms.imol, ms._thermal_condition, th)
+
+        def load(flows):
+            fl = list(flows) + [0.0] * (N - len(flows))
+            for ph in order:
+                S.inject(ms.imol.data.rows[order.index(ph)], fl if ph == 'l' else [0.0] * N)
+            return fl
+        load(FEEDS[npres])
+        T = 300.
+        L(T=T)
+        state['call'] = 1
+        which = E.pick(list(range(npres)), 'edited-chemical')
+        g = E.real('g', nice=(FEEDS[npres][which] * (1 - 2e-5), FEEDS[npres][which] * 3))
+        E.assume(g > 0)
+        f2 = list(FEEDS[npres])
+        f2[which] = g
+        tot = load(f2)
+        top = E.pick([None, 'Water'], 'top_chemical')
+        before = dict(E.stub_calls)
+        L(T=T, top_chemical=top)
+        reused = E.stub_calls.get('phase_fraction', 0) > before.get('phase_fraction', 0)
+        sig = f'LLE-second-call/n={npres}/edited={which}/top={top}/reused={reused}'
+        rows = {ph: [ms.imol.data.rows[order.index(ph)].dct.get(i, 0.0) for i in range(N)] for ph in order}
+        after = [rows['l'][i] + rows['L'][i] for i in range(N)]
+        E.prove('second-call-per-chemical-total-unchanged', E.all([E.eq(a, b) for a, b in zip(after, tot)]), sig=sig)
+        E.prove('second-call-no-negative-phase-flow', E.all([E.ge(x, 0.0) for ph in order for x in rows[ph]]), sig=sig)
+    return run
+
+
 def g_sle():
     def run(E):
         sle = C.mod('thermosteam.equilibrium.sle')
@@ -431,6 +494,7 @@ def groups(tier):
         'vle-second-call': (g_vle_history(['TP'], [1] if q else [1, 2]), dict(max_paths=3000000, task_budget_s=120, qtimeout_ms=20000)),
         'vle-xy': (g_vle(['Tx', 'Px', 'Ty', 'Py'], [2], d, ((0, 0),) if q else nv), dict(max_paths=1000000)),
         'lle': (g_lle((2,), (None, 'Water')) if q else g_lle(), dict(max_paths=1000000, stubs_required=('solve_lle_liquid_mol',), qtimeout_ms=20000)),
+        'lle-second-call': (g_lle_second_call(), dict(max_paths=1000000, qtimeout_ms=20000)),
         'sle': (g_sle(), dict(max_paths=1000000)),
     }
     if not q:
